@@ -1,6 +1,7 @@
 import Rosmar.Driver
 import Rosmar.Shutdown
 import Rosmar.ViewDriver
+import Rosmar.Colls
 open Rosmar Rosmar.Driver
 
 /-- `sd acts=a,b,c` → the shutdown model's verdict; `sd locks=h1+h2>w;h>w` → whether those threads are deadlocked. -/
@@ -17,7 +18,7 @@ def shutdownLine (l : Line) : String :=
     s!"r=ok deadlock={Rosmar.Shutdown.deadlockedB ts}"
 
 inductive Mode where
-  | kv (s : State) (dd : List Rosmar.View.DDoc)
+  | kv (s : State) (dd : List Rosmar.View.DDoc) (dropped : List String := [])
   | reg (r : Rosmar.Registry.Reg)
   | life (l : Rosmar.FeedLife.Life)
 
@@ -50,11 +51,19 @@ partial def loop (h : IO.FS.Stream) (out : IO.FS.Stream) (m : Mode) : IO Unit :=
         let (r', s) := regLine r l
         out.putStrLn s
         loop h out (.reg r')
-      | .kv s dd =>
+      | .kv s dd dropped =>
+        if l.op = "dropcoll" then
+          out.putStrLn "r=ok"
+          loop h out (.kv (opDropColl s l.p0) (dd.filter (fun d => d.coll ≠ l.p0)) (if dropped.contains l.p0 then dropped else l.p0 :: dropped))
+        else if l.op = "mkcoll" then
+          let (s', id) := opMkColl s l.p0
+          out.putStrLn s!"r=ok id={id}"
+          loop h out (.kv s' dd (dropped.filter (· ≠ l.p0)))
+        else
         match Rosmar.View.viewLine { s := s, ddocs := dd } l with
         | some (vs', str) =>
           out.putStrLn str
-          loop h out (.kv vs'.s vs'.ddocs)
+          loop h out (.kv vs'.s vs'.ddocs dropped)
         | none =>
         if l.op = "query" then
           let rows := opQuery s l.p0 (l.nat "q")
@@ -66,10 +75,21 @@ partial def loop (h : IO.FS.Stream) (out : IO.FS.Stream) (m : Mode) : IO Unit :=
           out.putStrLn "r=model-unknown-op"
           loop h out m
         | some op =>
+          if dropped.contains l.p0 && l.pos.length ≥ 1 && l.op ≠ "restart" then
+            -- a call through the object of a dropped collection
+            let (s', r) := stepDropped s l.p0 op
+            out.putStrLn (match r with | some resp => fmtResp l resp | none => "r=dropped")
+            loop h out (.kv s' dd dropped)
+          else
           let (s', resp) := step s op
           out.putStrLn (fmtResp l resp)
-          let vs' := if dd.isEmpty then { s := s', ddocs := dd } else (Rosmar.View.VState.gc { s := s', ddocs := dd })
-          loop h out (.kv vs'.s vs'.ddocs)
+          -- reopening the bucket in the harness re-creates the collections its programs always use
+          let (s'', dropped') :=
+            if l.op = "restart" then
+              (["c1", "c2"].foldl (fun st c => (opMkColl st c).1) s', dropped.filter (fun c => c ≠ "c1" && c ≠ "c2"))
+            else (s', dropped)
+          let vs' := if dd.isEmpty then { s := s'', ddocs := dd } else (Rosmar.View.VState.gc { s := s'', ddocs := dd })
+          loop h out (.kv vs'.s vs'.ddocs dropped')
 
 def main : IO Unit := do
   let stdin ← IO.getStdin
